@@ -281,7 +281,11 @@ def _has_undecoded_escape(q):
 def _cls_escape_not_decoded(m, params):
     # D10 (pinned by query::tests::tab_key / carr_return): escape sequences in name selectors and string literals are
     # never decoded, so a query that spells a name or literal with an escape looks for the raw text instead
-    return m.get("check") in ("nodes", "order", "paths", "seg", "entry", "j", "prog") and _has_undecoded_escape(m.get("q", ""))
+    q = m.get("q", "")
+    if m.get("check") in ("nodes", "order", "paths", "seg", "entry", "j", "prog") and _has_undecoded_escape(q):
+        return True
+    # ... and a string literal with ANY escape (also \\\\) given as the subject of match / search is handed over raw
+    return m.get("check") in ("nodes", "order", "j") and re.search(r"(match|search)\(\s*(['\"])(?:(?!\2)[^\\])*\\", q) is not None
 
 
 CLASSIFIERS["deep_nesting_overflow"] = _cls_deep_nesting_overflow
